@@ -66,7 +66,13 @@ def run_shard(spec, R):
             if not R.want([list(shape), draw]):
                 continue
             h = [float(10 ** rng.uniform(-2, 2)) for _ in shape]
-            grid = darsia.Grid(shape, h)
+            # the caller's container (list or float ndarray) is reused and overwritten by the caller afterwards:
+            # a grid is defined by the values it was constructed with
+            given = list(h) if (si + draw) % 2 == 0 else np.array(h, dtype=float)
+            grid = darsia.Grid(shape, given)
+            for d in range(dim):
+                given[d] = given[d] * 0.5
+            R.count("caller_container_overwritten_after_construction")
             M = GridModel(shape, h)
             case = {"shape": list(shape), "draw": draw, "voxel_size": h}
             nf, nc = M.num_faces, M.num_cells
